@@ -231,10 +231,7 @@ def asyncCommittedAt (s : Store) (T N : Nat) : Bool :=
 def toldCheck (j : JState) : Option String :=
   j.told.findSome? fun (st, what) =>
     let o := outcomeOf j.store st
-    let committedAt : Option Nat := match o with
-      | .committed c => some c
-      | .mixed _ => ((j.store.kv.flatMap fun (_, e) => e.writes.filter fun w => w.startTS == st && w.vt != .rollback).head?).map (·.commitTS)
-      | _ => none
+    let committedAt : Option Nat := committedAtOf j.store st
     match what.splitOn " " with
     | ["ok", "0"] =>
       -- Commit of a transaction without mutations: nothing to commit, and nothing of it may be in the store
